@@ -10,11 +10,13 @@ import (
 	"testing"
 	"time"
 
+	tmproto "github.com/cometbft/cometbft/proto/tendermint/types"
 	core "github.com/cometbft/cometbft/types"
 	pubsubpb "github.com/libp2p/go-libp2p-pubsub/pb"
 
 	"github.com/celestiaorg/celestia-node/header"
 	"github.com/celestiaorg/celestia-node/header/headertest"
+	hpb "github.com/celestiaorg/celestia-node/header/pb"
 	"github.com/celestiaorg/celestia-node/zz_verif/vkit"
 )
 
@@ -390,6 +392,45 @@ func (c *c16) header(r *vkit.RNG, ch *c16chain, hi int) {
 		}
 		c.run.Count("class/wire/decoded", 1)
 		c.eval(ctx, h0, d, "wire", "wire."+mop, fmt.Sprintf("#%d", k), true)
+	}
+	// non-canonical but valid protobuf encodings: a field may occur several times and occurrences are merged
+	// (later scalar fields win). An extra commit fragment naming ANOTHER block in front of the canonical bytes
+	// decodes to the very same header; its message id must still be the one of the block it commits to.
+	// (added after seeded change C16-b was missed)
+	for _, nbh := range []*c16hdr{prev, next} {
+		if nbh == nil || nbh.Commit == nil {
+			continue
+		}
+		frag := &hpb.ExtendedHeader{Commit: &tmproto.Commit{BlockID: nbh.Commit.BlockID.ToProto()}}
+		fb, err := frag.Marshal()
+		if err != nil {
+			continue
+		}
+		for _, enc := range []struct {
+			name string
+			b    []byte
+		}{{"foreign-commit-fragment-prepended", append(append([]byte{}, fb...), wire...)}, {"own-encoding-twice", append(append([]byte{}, wire...), wire...)}} {
+			c.run.Eval(1)
+			c.run.Count("class/proto-merge/tried", 1)
+			d := new(c16hdr)
+			var uerr error
+			if p, site := vkit.Recover(func() { uerr = d.UnmarshalBinary(enc.b) }); p != nil {
+				c.panicAt(true, "UnmarshalBinary", site, fmt.Sprint(p), ctx, "proto-merge/"+enc.name, h0, enc.b)
+				continue
+			}
+			if uerr != nil || d.Commit == nil {
+				c.run.Count("class/proto-merge/refused-by-decoder", 1)
+				continue
+			}
+			id, p, site := c16msgID(enc.b)
+			if p != nil {
+				c.panicAt(true, "MsgID", site, fmt.Sprint(p), ctx, "proto-merge/"+enc.name, h0, enc.b)
+				continue
+			}
+			c.run.Count("class/proto-merge/decoded", 1)
+			c.checkID(ctx, "proto-merge/"+enc.name, d.Commit.BlockID, id, "proto-merge:"+enc.name)
+			c.eval(ctx, h0, d, "wire", "proto-merge."+enc.name, "", true)
+		}
 	}
 }
 
